@@ -30,6 +30,7 @@ func init() {
 			Trusted:     commonTrusted,
 		},
 		Mutants: []Mutant{
+			{Name: "whitespace-only yield content is not rendered (agent seed C03/2, reduced)", File: "eval.go", Old: "\tmycontent := st.content\n\tif content != nil {", New: "\tmycontent := st.content\n\tif content != nil && !IsEmptyTree(content) {", Rule: "C03.identity"},
 			{Name: "custom right delimiter without its trim form (original defect)", File: "lex.go", Old: "\t\tl.rightDelim = rightDelim\n\t\tl.trimRightDelim = rightTrimMarker + rightDelim\n", New: "\t\tl.rightDelim = rightDelim\n", Rule: "C03.coupled"},
 			{Name: "trim form built from the default delimiter", File: "lex.go", Old: "\t\tl.trimRightDelim = rightTrimMarker + rightDelim\n", New: "\t\tl.trimRightDelim = rightTrimMarker + defaultRightDelim\n", Rule: "C03."},
 			{Name: "text nodes are space-trimmed", File: "constructors.go", Old: "Text: []byte(text)}", New: "Text: []byte(strings.TrimSpace(text))}", Rule: "C03.identity"},
@@ -192,6 +193,39 @@ func runC03(c *an.Ctx) {
 			return true
 		})
 		c.Check(ok, "C03.identity", "(*lexer).emit", em.Pos(), "emit sends exactly input[start:pos]", "lexer.emit does not send item{t, l.start, l.input[l.start:l.pos]}: token text is not the scanned bytes")
+	}
+
+	// while executing, the text of a literal node is only ever written raw: nothing reachable from Execute
+	// (other than String() methods, which format nodes for messages) inspects, trims or filters it
+	{
+		eval, parse := p.Eval(), p.Parse()
+		sinks := sinkSites(p, eval)
+		nUse := 0
+		for _, f := range an.SortedFns(eval) {
+			if f.Pkg != p.Jet || f.Body == nil || parse[f] || (f.Decl != nil && f.Decl.Name.Name == "String") {
+				continue
+			}
+			finfo := f.Info()
+			an.InspectOwn(f, func(n ast.Node) bool {
+				sel, ok := n.(*ast.SelectorExpr)
+				if !ok || p.FieldKey(finfo, sel) != "TextNode.Text" {
+					return true
+				}
+				nUse++
+				okUse := false
+				for _, sk := range sinks {
+					for _, d := range sk.data {
+						if an.Unparen(d) == ast.Expr(sel) && classifyWriter(p, sk.fn, sk.dest) == wRAW {
+							okUse = true
+						}
+					}
+				}
+				c.Check(okUse, "C03.identity", f.Name+"/text-use", sel.Pos(), "literal text is only written raw",
+					f.Name+" (reachable from Execute) uses TextNode.Text other than as the data of a raw write: literal text is inspected/filtered at run time, so whether or how it is rendered depends on its content")
+				return true
+			})
+		}
+		c.Expect("C03.identity", "uses of TextNode.Text while executing", nUse, 1)
 	}
 
 	// ---------------------------------------------------------------- C03.drop
